@@ -181,7 +181,34 @@ fn run_state_resets(rep: &mut Report, rng: &mut Rng, thorough: bool) {
     }
 }
 
+/// ours -> liblzma on data whose period is the dictionary size +- 1 (matches at the very edge of the dictionary)
+fn run_dict_edge(rep: &mut Report, rng: &mut Rng, thorough: bool) {
+    for (k, (normal, bt4)) in [(false, false), (true, true), (true, false), (false, true)].into_iter().enumerate() {
+        for delta in [0i64, 1] {
+            let _ = (k, thorough);
+            let dict = 4096u32;
+            let period = (dict as i64 + delta) as usize;
+            let base = rng.bytes(period);
+            let data: Vec<u8> = (0..period * 2 + 900).map(|i| base[i % period]).collect();
+            let lz = LzOpts { dict, lc: 3, lp: 0, pb: 2, normal, nice: 64, bt4, depth: 0, preset: None };
+            let o = XzOpts { lz: lz.clone(), check: 4, block: None, filters: vec![] };
+            let detail = || json!({"direction": "ours->liblzma", "stratum": "dict-edge", "period": period, "opts": lz.json(), "data_len": data.len()});
+            rep.count("stratum.dict-edge");
+            match xz_compress(&data, &o, &[data.len()], 0) {
+                Outcome::Ok(c) => match lref::xz_decode(&c, data.len() + 64) {
+                    Ok(out) if out == data => {}
+                    Ok(_) => rep.fail("ref-xz-different-data", "liblzma decodes our .xz to different data (dict-edge stratum)", detail()),
+                    Err(e) => rep.fail("ref-xz-rejects:dict-edge", &format!("liblzma rejects our .xz (period dict{delta:+}): {e}"), detail()),
+                },
+                other => rep.fail(&format!("xz-write-{}", other.class()), &other.describe(), detail()),
+            }
+            rep.case(format!("o2r:xz:dict-edge:{delta}:{normal}:{bt4}"), true, || detail());
+        }
+    }
+}
+
 pub fn run(rep: &mut Report, rng: &mut Rng, thorough: bool) {
+    run_dict_edge(rep, rng, thorough);
     run_state_resets(rep, rng, thorough);
     run_max_chunk(rep, rng);
     run_crafted(rep, rng, thorough);
